@@ -33,6 +33,15 @@ class GlobSplitInit(Contract):
                   '_wcparse._get_magic_symbols': lambda eng, node, st, args: U('MAGIC_SYMBOLS', *args)})
         return h
 
+    def crosscheck(self, eng, paths, inp):
+        from .base import init_crosscheck
+        from wcmatch import glob
+
+        def build(m):
+            return glob._GlobSplit('x', m.eval(self.F, model_completion=True).as_long())
+        host = [z3.Not(FL.PLAT_WIN), FL.CASE_FS, z3.Not(FL.OS_NT), z3.Not(z3.Bool('pattern_is_negative'))]       # Linux host, the pattern 'x' is not negative
+        return init_crosscheck(self, eng, paths, inp, build, extra=host, vary=[self.F])
+
     @property
     def ensures(self):
         me = self
@@ -139,6 +148,16 @@ class WcParseInit(Contract):
         h.update({'get_case': lambda eng, node, st, args: Bool(FL.S_get_case(args[0].t)), 'is_unix_style': lambda eng, node, st, args: Bool(FL.S_is_unix_style(args[0].t)),
                   'isinstance': lambda eng, node, st, args: Bool(z3.Bool('pattern_is_bytes'))})
         return h
+
+    def crosscheck(self, eng, paths, inp):
+        from .base import init_crosscheck
+        from wcmatch import _wcparse
+
+        def build(m):
+            fl = m.eval(self.F, model_completion=True).as_long()
+            return _wcparse.WcParse(b'x' if z3.is_true(m.eval(z3.Bool('pattern_is_bytes'), model_completion=True)) else 'x', fl)
+        host = [z3.Not(FL.PLAT_WIN), FL.CASE_FS, z3.Not(FL.OS_NT)]          # the interpreter runs on Linux: compare under that platform
+        return init_crosscheck(self, eng, paths, inp, build, extra=host, vary=[self.F])
 
     @property
     def ensures(self):
